@@ -25,11 +25,12 @@ Proof. exact all_entry_points_ok. Qed.
    Proof (Proofs/EffectsSound.v, EffectsSound2.v): an abstraction invariant [Inv]
    (every variable is bound to an existing location described by its abstract value;
    every reference of an object created during the call is recorded in the abstract
-   heap under its allocation site and field; objects that existed before only hold
-   such objects; a new object sharing an old buffer comes from a site with non-empty
-   taint) is preserved by EVar/ELoad/EReach/EAlloc/EChoice ([eval_sound]) and, by
-   induction on the execution, by every statement ([exec_sound]): SIf by soundness of
-   the join, SLoop because the checker re-checks the body AT the invariant it found
+   heap under its allocation site and field; an object that existed before holds
+   objects of the regions it lies in, or what [po] records; a new object sharing an
+   old buffer comes from a site whose taint names a parameter owning that buffer) is
+   preserved by EVar/ELoad/EReach/EAlloc/EChoice ([eval_sound]) and, by induction on
+   the execution, by every statement ([exec_sound]): SIf by soundness of the join,
+   SLoop because the checker re-checks the body AT the invariant it found
    (post-fixpoint, [loop_inv_spec]), SCall by the check of the inlined callee with the
    remaining depth fuel. *)
 Theorem C19_safe_sound :
@@ -38,9 +39,35 @@ Theorem C19_safe_sound :
   forall l, In l (st_log st') -> (n0 <= l)%nat.
 Proof. exact safe_sound. Qed.
 
-(* The two together, for the program generated from /repo: every public entry point
-   for which no defect is on record ([accepted_unsafe] has no parameter for it)
-   never writes storage that existed before the call, in any execution. *)
+(* Attribution (what a non-empty report means), for EVERY program: if the analysis of
+   fd ends with the report v then every logged write to storage that existed before
+   the call hits the buffer of an object that was reachable, when the call started,
+   from a parameter q named by an entry (source line, q) of v.  C19_safe_sound is
+   the case v = [].
+   FINDING (checker, repaired): the checker as first written did NOT have this
+   property -- for  f(a, b): a.append(b); c = a[..]; c[..] = ..  it reported only a
+   although b is modified (C19_semantics_needs_po below is that execution): it assumed
+   that an object that existed before the call only holds objects of its own region
+   even after the function itself had stored into it.  Model/Effects.v now records what
+   may be stored into pre-existing objects ([po], checked as a post-fixpoint by
+   [store_ok] like the rest of the abstract heap) and loads through parameters see it.
+   Verdicts of [safe] are unchanged by the repair (po is empty when nothing
+   pre-existing is written); only reports of functions that do store references into
+   their arguments can grow. *)
+Theorem C19_report_sound :
+  forall p fd n0 st o st' v,
+  analyse p fd = Some v -> initial fd n0 st -> exec p (fn_body fd) st o st' ->
+  forall m, In m (st_log st') -> (m < n0)%nat ->
+  exists ln q l0 l, In (ln, q) v /\ st_env st q = Some l0 /\ reach (st_heap st) l0 l /\
+                    m = base (st_heap st) l.
+Proof. exact analyse_sound. Qed.
+
+(* The generated obligation and soundness together, for the program generated from
+   /repo.  (1) Every public entry point for which no defect is on record
+   ([accepted_unsafe] has no parameter for it) never writes storage that existed
+   before the call, in any execution.  (2) For every public entry point, whatever
+   pre-existing storage it writes is the buffer of an object reachable at entry from a
+   parameter that is on record for it. *)
 Theorem C19_entry_points_do_not_write_caller_storage :
   forall fd n0 st o st',
   In fd (entry_points eon_program) -> accepted_params accepted_unsafe (fn_name fd) = [] ->
@@ -48,12 +75,22 @@ Theorem C19_entry_points_do_not_write_caller_storage :
   forall l, In l (st_log st') -> (n0 <= l)%nat.
 Proof. exact (fun fd n0 st o st' => entry_points_sound eon_program fd n0 st o st' all_entry_points_ok). Qed.
 
+Theorem C19_entry_points_write_at_most_recorded_parameters :
+  forall fd n0 st o st',
+  In fd (entry_points eon_program) ->
+  initial fd n0 st -> exec eon_program (fn_body fd) st o st' ->
+  forall m, In m (st_log st') -> (m < n0)%nat ->
+  exists q l0 l, In (pname (fn_params fd) q) (accepted_params accepted_unsafe (fn_name fd)) /\
+                 st_env st q = Some l0 /\ reach (st_heap st) l0 l /\ m = base (st_heap st) l.
+Proof. exact (fun fd n0 st o st' => entry_points_sound_attr eon_program fd n0 st o st' all_entry_points_ok). Qed.
+
 (* The invariant-preservation theorem behind it, stated for the checker [chk] under
    any abstract heap H (the inferred heap is only a candidate that chk verifies). *)
 Theorem C19_invariant_preserved :
-  forall p H n0 s st o st', exec p s st o st' ->
-  forall d E E', chk p H d s E = Some (E', []) -> Inv n0 H st E -> log_ok n0 st ->
-  log_ok n0 st' /\ (o = Normal -> Inv n0 H st' E' /\ ext (st_heap st) (st_heap st')).
+  forall p H n0 R b0 s st o st', exec p s st o st' ->
+  forall d E E' v V, chk p H d s E = Some (E', v) -> incl v V ->
+  Inv n0 R b0 H st E -> log_ok n0 R b0 V st ->
+  log_ok n0 R b0 V st' /\ (o = Normal -> Inv n0 R b0 H st' E' /\ ext (st_heap st) (st_heap st')).
 Proof. exact exec_sound. Qed.
 
 (* Fuel.  The checker never accepts because it ran out of fuel: with no depth fuel it
@@ -71,16 +108,13 @@ Proof. exact chk_call_inv. Qed.
 
 (* Lemmas of the proof that are useful on their own (formerly the _partial theorems). *)
 Theorem C19_write_step :
-  forall p H d n0 ln x f ys E E' st o st',
-  chk p H (S d) (SWrite ln x f ys) E = Some (E', []) ->
-  inv_env n0 (st_heap st) (st_env st) E -> inv_bt n0 H (st_heap st) ->
-  (forall m, In m (st_log st) -> (n0 <= m)%nat) ->
-  exec p (SWrite ln x f ys) st o st' ->
-  forall m, In m (st_log st') -> (n0 <= m)%nat.
-Proof. exact exec_write_logs_new. Qed.
+  forall n0 R b0 H h e E x l,
+  inv_env n0 R h e E -> inv_bt n0 R b0 H h -> inv_base n0 b0 h ->
+  e x = Some l -> taint H (alook E x) = [] -> (n0 <= base h l)%nat.
+Proof. exact write_safe. Qed.
 
 Theorem C19_env_monotone :
-  forall n0 h e E F, aenv_leq E F = true -> inv_env n0 h e E -> inv_env n0 h e F.
+  forall n0 R h e E F, aenv_leq E F = true -> inv_env n0 R h e E -> inv_env n0 R h e F.
 Proof. exact inv_env_mono. Qed.
 
 (* non-vacuity: the program is not empty; the checker rejects a function that
@@ -96,8 +130,8 @@ Example C19_checker_discriminates :
       (seq [SAssign 2 (EAlloc 7 0 [1] [] [] []); SAssign 3 (ELoad 2 0); SWrite 10 3 0 []]) in
   let recursive := mkfun 5 "r"%string [(1, "a"%string)] true (SCall 2 5 [1]) in
   (safe [] f_writes_param, safe [] f_rebinds_first, safe [] f_writes_view, safe [] writes_element,
-   safe [recursive] recursive)
-  = (false, true, false, false, false).
+   safe [recursive] recursive, mutated_params [] f_attr)
+  = (false, true, false, false, false, Some ["a"; "b"]%string).
 Proof. vm_compute. reflexivity. Qed.
 
 (* non-vacuity of the semantics: the hypotheses of C19_safe_sound are satisfiable and
@@ -117,9 +151,19 @@ Example C19_accepted_function_runs_and_writes :
     exec [] (fn_body f_rebinds_first) st_one Normal st' /\ st_log st' = [1%nat].
 Proof. exact rebinds_first_runs. Qed.
 
+(* the execution of  f(a, b): a.append(b); c = a[..]; c[..] = ..  that writes b (location
+   1), which is not the buffer of anything reachable from a (location 0) at entry *)
+Example C19_semantics_needs_po :
+  exists st', initial f_attr 2%nat st_ab /\
+    exec [] (fn_body f_attr) st_ab Normal st' /\ In 1%nat (st_log st') /\
+    (forall l, reach (st_heap st_ab) 0%nat l -> base (st_heap st_ab) l <> 1%nat).
+Proof. exact attr_writes_b. Qed.
+
 Print Assumptions C19_all_entry_points_safe_except_confirmed_defects.
 Print Assumptions C19_safe_sound.
+Print Assumptions C19_report_sound.
 Print Assumptions C19_entry_points_do_not_write_caller_storage.
+Print Assumptions C19_entry_points_write_at_most_recorded_parameters.
 Print Assumptions C19_invariant_preserved.
 Print Assumptions C19_out_of_fuel_is_failure.
 Print Assumptions C19_accepted_call_checked_callee.
@@ -130,3 +174,4 @@ Print Assumptions C19_checker_discriminates.
 Print Assumptions C19_semantics_sees_write_to_parameter.
 Print Assumptions C19_semantics_sees_write_through_view.
 Print Assumptions C19_accepted_function_runs_and_writes.
+Print Assumptions C19_semantics_needs_po.
